@@ -27,7 +27,22 @@ class Term(object):
         return "<%s/%d%s>" % (self.op, self.w, "*" if self.sec else "")
 
 
+AIG = None      # set by irsym.aig on import (bit-level mode)
+MODE = "term"   # "term" (word-level DAG + z3) or "aig" (bit-level XOR-AND graph)
+
+
+def _av(*xs):
+    if AIG is None:
+        return False
+    for x in xs:
+        if isinstance(x, AIG.AV):
+            return True
+    return False
+
+
 def var(name, w, secret=True):
+    if MODE == "aig":
+        return AIG.var(name, w, secret)
     t = Term("var", (), w, aux=name)
     t.sec = secret
     return t
@@ -91,6 +106,8 @@ def binop(op, a, b, w):
             r = abs(sa) % abs(sb)
             return (r if sa >= 0 else -r) & m
         raise ValueError(op)
+    if _av(a, b):
+        return AIG.binop(op, a, b, w)
     # local simplifications
     if op in ("and", "mul"):
         if (is_c(a) and a == 0) or (is_c(b) and b == 0):
@@ -138,6 +155,8 @@ def icmp(pred, a, b, w):
                     "slt": a < b, "sle": a <= b, "sgt": a > b, "sge": a >= b}[pred])
     if a is b:
         return int(pred in ("eq", "ule", "uge", "sle", "sge"))
+    if _av(a, b):
+        return AIG.icmp(pred, a, b, w)
     return mk("icmp", (a, b), 1, aux=(pred, w))
 
 
@@ -146,18 +165,24 @@ def select(c, a, b, w):
         return a if c else b
     if a is b or (is_c(a) and is_c(b) and a == b):
         return a
+    if _av(c, a, b):
+        return AIG.select(c, a, b, w)
     return mk("select", (c, a, b), w)
 
 
 def zext(a, w_from, w_to):
     if is_c(a):
         return a
+    if _av(a):
+        return AIG.zext(a, w_from, w_to)
     return mk("zext", (a,), w_to, aux=w_from)
 
 
 def sext(a, w_from, w_to):
     if is_c(a):
         return to_signed(a, w_from) & mask(w_to)
+    if _av(a):
+        return AIG.sext(a, w_from, w_to)
     return mk("sext", (a,), w_to, aux=w_from)
 
 
@@ -168,6 +193,8 @@ def extract(a, hi, lo):
         return (a >> lo) & mask(w)
     if lo == 0 and w == a.w:
         return a
+    if _av(a):
+        return AIG.extract(a, hi, lo)
     if a.op == "zext" and hi < a.aux:
         return extract(a.args[0], hi, lo)
     if a.op == "zext" and lo >= a.aux:
@@ -192,6 +219,8 @@ def trunc(a, w_to):
 def concat(hi, lo, whi, wlo):
     if is_c(hi) and is_c(lo):
         return (hi << wlo) | lo
+    if _av(hi, lo):
+        return AIG.concat(hi, lo, whi, wlo)
     if is_c(hi) and hi == 0 and not is_c(lo):
         return zext(lo, wlo, whi + wlo)
     # re-fuse adjacent extracts of the same node
@@ -206,6 +235,8 @@ def concat(hi, lo, whi, wlo):
 
 def fsh(left, a, b, c, w):
     """funnel shift: concat(a,b) shifted by c mod w"""
+    if _av(a, b, c):
+        return AIG.fsh(left, a, b, c, w)
     if is_c(c):
         c %= w
         if c == 0:
